@@ -4,7 +4,7 @@
 cd "$(dirname "$0")/.."
 out=seeded/RESULTS.txt
 : > $out.tmp
-for d in seeded/C??-? seeded/C??-r2-? seeded/C??-r3-? seeded/C??-r4-? seeded/benign/C??-?; do
+for d in seeded/C??-? seeded/C??-r2-? seeded/C??-r3-? seeded/C??-r4-? seeded/C??-r5-? seeded/benign/C??-?; do
   [ -f $d/patch.diff ] || continue
   b=$(basename $d); p=$(echo $b | cut -c1-3)
   extra=""
